@@ -266,10 +266,22 @@ def cs_of(angle):
 
 class Check(PropertyCheck):
     id = 'C20'
-    lean_targets = ['RegionsVerif.Props.C20', 'RegionsVerif.Bridge.FormulasC20']
-    namespaces = ['RegionsVerif.Props.C20', 'RegionsVerif.Bridge.C20']
+    lean_targets = ['RegionsVerif.Props.C20', 'RegionsVerif.Bridge.FormulasC20', 'RegionsVerif.Bridge.InlineGlueC20']
+    namespaces = ['RegionsVerif.Props.C20', 'RegionsVerif.Bridge.C20', 'RegionsVerif.Bridge.InlineGlueC20']
+
+    def _inline_glue(self):
+        # tie T: normal forms of the glue methods (tools/inlineglue.py, group C20)
+        import importlib.util, os
+        from .common import VERIF
+        spec = importlib.util.spec_from_file_location('inlineglue', os.path.join(VERIF, 'tools', 'inlineglue.py'))
+        mod = importlib.util.module_from_spec(spec)
+        spec.loader.exec_module(mod)
+        return mod.main(['C20'])
 
     def translate(self):
+        return list(self._translate0()) + list(self._inline_glue())
+
+    def _translate0(self):
         # tie T: regenerate Gen/FormulasC20.lean (PixCoord.__add__/__sub__/separation/rotate) from the current source
         import importlib.util, os
         from .common import VERIF
